@@ -1,14 +1,382 @@
 package main
 
-import "golang.org/x/tools/go/ssa"
+// Threads: interpreted goroutines run as real goroutines, one at a time
+// (token passing). At every visible operation (channel operation, mutex,
+// Once, pool, an explicit vfYield in the transport model, goroutine start
+// and end) the running thread lets a nondeterministic scheduler (a forking
+// choice, bounded by a preemption budget) pick who continues. Between visible
+// operations a thread runs uninterrupted, which is sound for data-race-free
+// executions; a vector-clock happens-before detector checks that side
+// condition on every heap cell access and reports races.
 
-// Sequential semantics for now: blocking operations that cannot proceed are
-// deadlocks; goroutines are added by the scheduler extension.
+import (
+	"fmt"
 
-func (m *machine) blockOn(what string, obj interface{}) bool { return false }
+	"golang.org/x/tools/go/ssa"
+)
 
-func (m *machine) visibleOp(what string) {}
+type gthread struct {
+	id      int
+	resume  chan bool // true: run, false: abort
+	done    bool
+	canRun  func() bool // nil: runnable
+	what    string
+	vc      []int
+	started bool
+}
 
+type accessRec struct {
+	wTid   int
+	wClock int
+	wSite  string
+	reads  map[int]int
+	rSite  map[int]string
+}
+
+type threadsState struct {
+	threads     []*gthread
+	cur         *gthread
+	preemptions int
+	maxPreempt  int
+	abortWith   interface{}
+	shutting    bool
+	acc         map[*value]*accessRec
+	chanVC      map[*chanV][][]int // vector clocks attached to buffered items
+	objVC       map[interface{}][]int
+	switches    int
+}
+
+func (m *machine) ts() *threadsState {
+	if m.thr == nil {
+		main := &gthread{id: 0, resume: make(chan bool), vc: []int{1}, started: true}
+		m.thr = &threadsState{threads: []*gthread{main}, cur: main, maxPreempt: 2,
+			acc: map[*value]*accessRec{}, chanVC: map[*chanV][][]int{}, objVC: map[interface{}][]int{}}
+		if v, ok := m.eng.params["preempt"]; ok {
+			m.thr.maxPreempt = v
+		}
+	}
+	return m.thr
+}
+
+func (m *machine) multi() bool { return m.thr != nil && len(m.thr.threads) > 1 }
+
+func vcCopy(v []int) []int { return append([]int(nil), v...) }
+
+func vcJoin(a, b []int) []int {
+	for len(a) < len(b) {
+		a = append(a, 0)
+	}
+	for i := range b {
+		if b[i] > a[i] {
+			a[i] = b[i]
+		}
+	}
+	return a
+}
+
+func (t *gthread) tick() {
+	for len(t.vc) <= t.id {
+		t.vc = append(t.vc, 0)
+	}
+	t.vc[t.id]++
+}
+
+func vcAt(v []int, i int) int {
+	if i < len(v) {
+		return v[i]
+	}
+	return 0
+}
+
+// spawn starts a new interpreted goroutine.
 func (m *machine) spawn(fr *frame, fn value, args []value, site ssa.Instruction) {
-	m.unsupported("go statement at %s", m.where())
+	ts := m.ts()
+	parent := ts.cur
+	parent.tick()
+	t := &gthread{id: len(ts.threads), resume: make(chan bool), vc: vcCopy(parent.vc)}
+	t.tick()
+	ts.threads = append(ts.threads, t)
+	go func() {
+		run := <-t.resume
+		t.started = true
+		defer func() {
+			r := recover()
+			t.done = true
+			if ts.shutting {
+				return
+			}
+			if r != nil {
+				if pe, ok := r.(pathEnd); ok && pe.status == "killed" {
+					return
+				}
+				// a path-ending event in a non-main thread: hand it to the main thread
+				ts.abortWith = r
+				ts.cur = ts.threads[0]
+				ts.threads[0].resume <- false
+				return
+			}
+			// normal end: pass control on
+			m.threadExit(t)
+		}()
+		if !run {
+			panic(pathEnd{"killed", ""})
+		}
+		m.callValue(nil, fn, args, site)
+	}()
+	m.visibleOp("go")
+}
+
+// threadExit is called by a finishing non-main thread.
+func (m *machine) threadExit(t *gthread) {
+	ts := m.thr
+	t.tick()
+	ts.objVC[t] = vcCopy(t.vc)
+	next := m.pickNext(nil)
+	if next == nil {
+		// nobody can run: the main thread is blocked forever
+		ts.abortWith = pathEnd{"deadlock", "all goroutines are blocked (" + m.blockedSummary() + ")"}
+		ts.cur = ts.threads[0]
+		ts.threads[0].resume <- false
+		return
+	}
+	ts.cur = next
+	next.resume <- true
+}
+
+func (m *machine) blockedSummary() string {
+	s := ""
+	for _, t := range m.thr.threads {
+		if !t.done && t.canRun != nil {
+			s += fmt.Sprintf("g%d:%s ", t.id, t.what)
+		}
+	}
+	return s
+}
+
+func (m *machine) runnable(t *gthread) bool {
+	if t.done {
+		return false
+	}
+	return t.canRun == nil || t.canRun()
+}
+
+// pickNext chooses the next thread to run among the runnable ones (cur, if
+// given and runnable, is listed first; switching away from a runnable cur is a
+// preemption and counts against the budget).
+func (m *machine) pickNext(cur *gthread) *gthread {
+	ts := m.thr
+	var cands []*gthread
+	if cur != nil && m.runnable(cur) {
+		cands = append(cands, cur)
+	}
+	for _, t := range ts.threads {
+		if t != cur && m.runnable(t) {
+			cands = append(cands, t)
+		}
+	}
+	if len(cands) == 0 {
+		return nil
+	}
+	if cur != nil && cands[0] == cur && ts.preemptions >= ts.maxPreempt {
+		cands = cands[:1]
+	}
+	k := 0
+	if len(cands) > 1 {
+		k = m.chooseN(len(cands), "schedule")
+		// chooseN recorded a "choose" nondet; turn it into a schedule record below
+		m.nondets = m.nondets[:len(m.nondets)-1]
+	}
+	if cur != nil && cands[0] == cur && k != 0 {
+		ts.preemptions++
+	}
+	// every scheduling decision is part of the witness: the id of the thread that runs next
+	m.nondets = append(m.nondets, nondetRec{Name: fmt.Sprintf("n%d_sched", len(m.nondets)), Term: m.ctx.BV(uint64(cands[k].id), 64), Kind: "sched"})
+	return cands[k]
+}
+
+// switchTo transfers control from the current thread to next and waits until
+// this thread is scheduled again.
+func (m *machine) switchTo(next *gthread) {
+	ts := m.thr
+	me := ts.cur
+	if next == me {
+		return
+	}
+	ts.switches++
+	ts.cur = next
+	saveInstr, saveDepth := m.curInstr, m.depth
+	next.resume <- true
+	run := <-me.resume
+	m.curInstr, m.depth = saveInstr, saveDepth
+	if !run {
+		if ts.abortWith != nil {
+			panic(ts.abortWith)
+		}
+		panic(pathEnd{"killed", ""})
+	}
+}
+
+// visibleOp is a scheduling point at which the current thread stays runnable.
+func (m *machine) visibleOp(what string) {
+	if !m.multi() {
+		return
+	}
+	ts := m.thr
+	ts.cur.tick()
+	next := m.pickNext(ts.cur)
+	if next != nil && next != ts.cur {
+		m.switchTo(next)
+	}
+}
+
+// blockOn parks the current thread until canRun holds; returns false when no
+// thread at all can run (deadlock).
+func (m *machine) blockOn(what string, canRun func() bool) bool {
+	if !m.multi() {
+		return false
+	}
+	ts := m.thr
+	me := ts.cur
+	me.canRun = canRun
+	me.what = what
+	next := m.pickNext(nil)
+	if next == nil {
+		me.canRun = nil
+		return false
+	}
+	if next != me {
+		m.switchTo(next)
+	}
+	me.canRun = nil
+	return true
+}
+
+// joinAll blocks the main thread until every other thread has finished.
+func (m *machine) joinAll() {
+	if !m.multi() {
+		return
+	}
+	ts := m.thr
+	allDone := func() bool {
+		for _, t := range ts.threads[1:] {
+			if !t.done {
+				return false
+			}
+		}
+		return true
+	}
+	for !allDone() {
+		if !m.blockOn("join", allDone) {
+			m.end("deadlock", "join: goroutines blocked forever ("+m.blockedSummary()+")")
+		}
+	}
+	for _, t := range ts.threads[1:] {
+		if v, ok := ts.objVC[t]; ok {
+			ts.cur.vc = vcJoin(ts.cur.vc, v)
+		}
+	}
+}
+
+// shutdown releases every parked goroutine at the end of a path.
+func (m *machine) shutdownThreads() {
+	if m.thr == nil {
+		return
+	}
+	ts := m.thr
+	ts.shutting = true
+	for _, t := range ts.threads[1:] {
+		if !t.done {
+			select {
+			case t.resume <- false:
+			default:
+				// not parked on resume (it is the one that aborted): nothing to do
+			}
+		}
+	}
+}
+
+// ---- happens-before ----
+
+func (m *machine) hbRelease(obj interface{}) {
+	if !m.multi() {
+		return
+	}
+	ts := m.thr
+	ts.cur.tick()
+	ts.objVC[obj] = vcJoin(vcCopy(ts.objVC[obj]), ts.cur.vc)
+}
+
+func (m *machine) hbAcquire(obj interface{}) {
+	if !m.multi() {
+		return
+	}
+	ts := m.thr
+	if v, ok := ts.objVC[obj]; ok {
+		ts.cur.vc = vcJoin(ts.cur.vc, v)
+	}
+}
+
+func (m *machine) hbChanSend(ch *chanV) {
+	if m.thr == nil {
+		return
+	}
+	ts := m.thr
+	ts.cur.tick()
+	ts.chanVC[ch] = append(ts.chanVC[ch], vcCopy(ts.cur.vc))
+}
+
+func (m *machine) hbChanRecv(ch *chanV) {
+	if m.thr == nil {
+		return
+	}
+	ts := m.thr
+	q := ts.chanVC[ch]
+	if len(q) > 0 {
+		ts.cur.vc = vcJoin(ts.cur.vc, q[0])
+		ts.chanVC[ch] = q[1:]
+	}
+}
+
+// access records a read or write of a heap cell and reports a data race when
+// it is not ordered with a conflicting earlier access.
+func (m *machine) access(p *value, write bool) {
+	if !m.multi() || p == nil {
+		return
+	}
+	ts := m.thr
+	t := ts.cur
+	a := ts.acc[p]
+	if a == nil {
+		a = &accessRec{wTid: -1}
+		ts.acc[p] = a
+	}
+	me := t.id
+	myClock := vcAt(t.vc, me)
+	if a.wTid >= 0 && a.wTid != me && a.wClock > vcAt(t.vc, a.wTid) {
+		m.violate("race", "data-race", fmt.Sprintf("data race: %s at %s conflicts with write at %s (goroutines %d and %d)", rw(write), m.where(), a.wSite, me, a.wTid))
+	}
+	if write {
+		for tid, c := range a.reads {
+			if tid != me && c > vcAt(t.vc, tid) {
+				m.violate("race", "data-race", fmt.Sprintf("data race: write at %s conflicts with read at %s (goroutines %d and %d)", m.where(), a.rSite[tid], me, tid))
+			}
+		}
+		a.wTid, a.wClock, a.wSite = me, myClock, m.where()
+		a.reads = nil
+		a.rSite = nil
+	} else {
+		if a.reads == nil {
+			a.reads = map[int]int{}
+			a.rSite = map[int]string{}
+		}
+		a.reads[me] = myClock
+		a.rSite[me] = m.where()
+	}
+}
+
+func rw(w bool) string {
+	if w {
+		return "write"
+	}
+	return "read"
 }
